@@ -14,46 +14,38 @@ Proof.
   assert (existsb f l = true) by (apply existsb_exists; eauto). congruence.
 Qed.
 
-(** RENAME old new (neither is INBOX), outside the classes: parents of [new]
-    are added, the row and exactly its children move, nothing else changes *)
+(** RENAME old new (neither is INBOX) on a table where no name lies below [new]: parents of
+    [new] are added, the row and exactly its children move, nothing else changes *)
 Theorem db_rename_clean bs old new :
   NoDup (names bs) ->
   str_eqb (to_upper new) INBOX = false -> str_eqb (to_upper old) INBOX = false ->
   exists_box bs old = true -> exists_box bs new = false ->
-  existsb is_nil (raw_parents new) = false -> existsb twin (raw_parents new) = false ->
-  is_child old new = false ->
   existsb (fun m => is_child new m) (names (add_missing (parents new) bs)) = false ->
   db_rename bs old new = (map (ren old new) (add_missing (parents new) bs), ROk).
 Proof.
-  intros Hnd Hn Ho Eo En Hnil Htw Hnc Hfree.
+  intros Hnd Hn Ho Eo En Hfree.
   unfold db_rename. rewrite Hn, Ho, Eo, En. simpl.
-  set (bs1 := add_missing (parents new) bs) in *.
-  assert (Hpar : (if contains_byte new delim then rename_parents (paths_of new) bs else Some bs) = Some bs1).
-  { unfold bs1. rewrite parents_raw by assumption. destruct (contains_byte new delim) eqn:Ec.
-    - rewrite paths_of_raw. now apply rename_parents_ok.
-    - now rewrite contains_byte_false_no_parents. }
-  rewrite Hpar.
+  rewrite create_missing_parents. set (bs1 := add_missing (parents new) bs) in *.
   assert (Hnew1 : ~ In new (names bs1)).
   { unfold bs1. rewrite add_missing_names. intros [H|H].
     - apply exists_box_false in En. contradiction.
-    - rewrite parents_raw in H by assumption. apply raw_parents_child in H. rewrite is_child_self in H. discriminate. }
-  unfold upd_name. rewrite (proj2 (exists_box_false bs1 new) Hnew1), andb_false_r.
+    - apply parents_child in H. rewrite is_child_self in H. discriminate. }
   rewrite filter_range_children.
   destruct (rename_tx_clean bs1 old new) as (us & E1 & E2).
   - unfold bs1. now apply add_missing_nodup.
   - exact Hnew1.
-  - exact Hnc.
   - intros m Hm. now apply (existsb_false_forall _ _ Hfree).
-  - rewrite E1, E2. reflexivity.
+  - rewrite E1. unfold upd_name. rewrite (proj2 (exists_box_false bs1 new) Hnew1), andb_false_r.
+    rewrite E2. reflexivity.
 Qed.
 
-(** DELETE: the children test is the hierarchical one *)
+(** DELETE: the children test is the hierarchical one, the protected names are exact *)
 Theorem db_delete_clean bs n :
   db_delete bs n =
   if str_eqb (to_upper n) INBOX then (bs, RNo)
   else if negb (exists_box bs n) then (bs, RNo)
   else if existsb (fun b => is_child n (mb_name b)) bs then (bs, RNo)
-  else if existsb (fun d => equal_fold n d) protected_names then (bs, RNo)
+  else if mem_str n protected_names then (bs, RNo)
   else (filter (fun b => negb (str_eqb (mb_name b) n)) bs, ROk).
 Proof.
   unfold db_delete.
@@ -87,7 +79,7 @@ Qed.
 
 Lemma canon_inbox n : str_eqb (canon n) INBOX = str_eqb (to_upper n) INBOX.
 Proof.
-  unfold canon, equal_fold. change (to_upper INBOX) with INBOX.
+  unfold canon, normalize_name, equal_fold. change (to_upper INBOX) with INBOX.
   destruct (str_eqb (to_upper n) INBOX) eqn:E; [apply str_eqb_refl|].
   apply str_eqb_neq. intros ->. apply str_eqb_neq in E. apply E. reflexivity.
 Qed.
@@ -95,27 +87,31 @@ Qed.
 (** the same two facts against the spec functions *)
 Theorem db_rename_refines st old new :
   NoDup (names (boxes st)) ->
-  is_nil old = false -> is_nil new = false ->
+  is_nil old = false -> is_nil new = false -> reserved new = false ->
   str_eqb (canon new) INBOX = false -> str_eqb (canon old) INBOX = false ->
   exists_box (boxes st) old = true -> exists_box (boxes st) new = false ->
-  existsb is_nil (raw_parents new) = false -> existsb twin (raw_parents new) = false ->
-  is_child old new = false ->
   existsb (fun m => is_child new m) (names (add_missing (parents new) (boxes st))) = false ->
   (let '(bs, r) := db_rename (boxes st) old new in (with_boxes st bs, r)) = spec_rename st old new.
 Proof.
-  intros Hnd Ho Hn Cn Co Eo En H1 H2 H3 H5.
-  unfold spec_rename. rewrite Ho, Hn, Cn, Co, Eo, En. simpl.
-  rewrite canon_inbox in Cn, Co. rewrite db_rename_clean by assumption. reflexivity.
+  intros Hnd Ho Hn Hr Cn Co Eo En H5.
+  unfold spec_rename. rewrite Ho, Hn, Hr, Cn, Co, Eo, En. simpl.
+  rewrite canon_inbox in Cn, Co. rewrite db_rename_clean by assumption.
+  rewrite nodupb_true; [reflexivity|].
+  apply ren_nodup.
+  - now apply add_missing_nodup.
+  - rewrite add_missing_names. intros [H|H].
+    + apply exists_box_false in En. contradiction.
+    + apply parents_child in H. rewrite is_child_self in H. discriminate.
+  - intros m Hm. now apply (existsb_false_forall _ _ H5).
 Qed.
 
 Theorem db_delete_refines st n :
   is_nil n = false ->
-  (existsb (fun d => equal_fold n d) protected_names = mem_str n protected_names) ->
   (let '(bs, r) := db_delete (boxes st) n in (with_boxes st bs, r)) = spec_delete st n.
 Proof.
-  intros Hn Hp. unfold spec_delete. rewrite Hn, canon_inbox, db_delete_clean.
+  intros Hn. unfold spec_delete. rewrite Hn, canon_inbox, db_delete_clean.
   destruct (str_eqb (to_upper n) INBOX); [destruct st; reflexivity|].
   destruct (negb (exists_box (boxes st) n)); [destruct st; reflexivity|].
   destruct (existsb (fun b => is_child n (mb_name b)) (boxes st)); [destruct st; reflexivity|].
-  rewrite Hp. destruct (mem_str n protected_names); [destruct st; reflexivity|]. reflexivity.
+  destruct (mem_str n protected_names); [destruct st; reflexivity|]. reflexivity.
 Qed.
